@@ -350,8 +350,16 @@ class Sem:
             return None
         if op == "field":
             v = self.aval(e.args[0], env, depth + 1)
-            if v and v[0] == "enum" and e.info[2] == v[1] and e.info[0].isdigit() and int(e.info[0]) < len(v[2]):
-                return v[2][int(e.info[0])]
+            if v and v[0] == "enum" and (e.info[2] == v[1] or not e.info[2]):
+                if e.info[0].isdigit():
+                    return v[2][int(e.info[0])] if int(e.info[0]) < len(v[2]) else None
+                a = self.prog.adt(v[3]) if len(v) > 3 else None
+                if a:
+                    for vv in a["variants"]:
+                        if vv["name"] == v[1]:
+                            names = [f["name"] for f in vv["fields"]]
+                            if e.info[0] in names and names.index(e.info[0]) < len(v[2]):
+                                return v[2][names.index(e.info[0])]
             return None
         if op == "call":
             k = e.info
